@@ -285,6 +285,8 @@ type wstats struct {
 	classes                   map[string]int64
 	samples                   []kase
 	sinceGC                   int
+	id                        int
+	set                       *cfgSet // this worker's private configuration objects for the current sub-space
 }
 
 type kase struct {
@@ -317,7 +319,7 @@ func (e *explorer) report(sp string, text string, f finding) {
 	}
 	hits := 0
 	for i := 0; i < 5; i++ {
-		fs, _ := checkText(text, cfgs, true)
+		fs, _ := checkGuarded(text, ownCfgSet(cfgs), true, true)
 		for _, g := range fs {
 			if g.Class == f.Class && g.Cfg == f.Cfg {
 				hits++
@@ -330,7 +332,7 @@ func (e *explorer) report(sp string, text string, f finding) {
 		e.r.Violate("c16", class, k, f.Expected, f.Got, "reproduced 5/5 through formatter.Format")
 	case hits == 0 && !strings.HasPrefix(f.Class, "harness"):
 		// only visible through FormatProgram over a shared parse: report it as such
-		fs, _ := checkText(text, cfgs, false)
+		fs, _ := checkGuarded(text, ownCfgSet(cfgs), false, true)
 		again := false
 		for _, g := range fs {
 			if g.Class == f.Class && g.Cfg == f.Cfg {
@@ -380,7 +382,10 @@ func (e *explorer) explore(s spec, workers []*wstats) {
 				slotStr[sl][k] = trivia(k, sl)
 			}
 		}
-		core.ParallelRange(r, nseq*nhb, func(id int) *wstats { return workers[id] }, func(w *wstats, idx int64) {
+		core.ParallelRange(r, nseq*nhb, func(id int) *wstats {
+			workers[id].set = ownCfgSet(s.Cfgs)
+			return workers[id]
+		}, func(w *wstats, idx int64) {
 			hb := s.HashBang[idx%nhb]
 			x := idx / nhb
 			seq := make([]int, L)
@@ -402,7 +407,7 @@ func (e *explorer) explore(s spec, workers []*wstats) {
 			rec = func(slot, heavy int, buf []byte) {
 				if slot > L {
 					text := string(buf)
-					fs, st := checkText(text, s.Cfgs, s.Real)
+					fs, st := checkGuarded(text, w.set, s.Real, false)
 					w.texts++
 					if s.Real {
 						// formatter.Format allocates a 128 KiB scanner buffer per call; on a
@@ -580,7 +585,7 @@ func run(r *core.Run) {
 	e := &explorer{r: r, reported: map[string]int{}}
 	workers := make([]*wstats, r.Workers)
 	for i := range workers {
-		workers[i] = &wstats{outcomes: map[string]int64{}, classes: map[string]int64{}}
+		workers[i] = &wstats{id: i, outcomes: map[string]int64{}, classes: map[string]int64{}}
 	}
 	r.Bound("alphabet", alphabet[:baseTokens])
 	r.Bound("trivia", triviaNames[:])
@@ -595,12 +600,15 @@ func run(r *core.Run) {
 	r.Bound("extras", len(extras))
 	r.Rule("text = [hash-bang line] t0 TOK1 t1 ... TOKn tn: every token sequence of the stated length over the alphabet x every trivia assignment of the sub-space (comment texts carry their slot number); " +
 		"every text goes to the strict reader; rejected => Format must fail with nil output; accepted => every configuration: typed LVal equality of strict parses, equality of my walker's tree over a re-lex (spellings, bracket kinds), comment list + anchors (unless stripping), Format(out)==out. " +
+		"After every text the configuration objects must equal their snapshots (Format does not modify the caller's *Config). " +
+		"Form space: every sequence of whole forms (head x layout x nesting) formatted one after the other with one shared *Config vs alone with a fresh one, and as one file with reused vs fresh configurations. " +
 		"Non-trivial = a token sequence with an accepted rendering that carries a comment and is changed by Format; distinct by token sequence")
 	r.Assume("a comment in the gap between a prefix token (' #' #^) and its operand counts as preceding the prefix form: the parser documents that it hoists it there (hoistOperandComments); the statement's 'before the same expression' is read modulo that hoist")
 	r.Assume("comments directly before a closing bracket or EOF: presence and order only (they precede no expression)")
 	r.Assume("#^x and (lisp:expr x), #'x and (lisp:function x) are the same tree (the reader desugars the shorthand); quoting '(..) vs [..] is NOT the same tree (bracket kind)")
 	r.Assume("pruned sub-spaces: a token sequence whose brackets do not nest is rendered under the light trivia only; heavy trivia contain no bracket, quote or string characters and end in a newline, so they cannot repair it")
 	r.Assume("most of the space is driven through rdparser.NewFormatting(NewScannerString)+formatter.FormatProgram (what Format does minus the 128 KiB scanner buffer); the 'real' sub-spaces call formatter.Format itself and require byte-identical results")
+	r.Assume("every configuration object is private to one worker, snapshotted, compared with the snapshot after every text (fields, table size, every rule object; the key-by-key table comparison on every 32nd text and always in the form space and the tables) and restored if it changed, so every text starts from a pristine *Config; given that, a pass with a reused *Config equals a pass with a fresh one, which the form space also checks explicitly")
 	r.Assume("StripComments without Compact is not named by the statement and is not checked; blank-line placement and indentation are free (only trees, comments and idempotence are asserted)")
 
 	perSpace := map[string]any{}
@@ -610,6 +618,16 @@ func run(r *core.Run) {
 			a += w.accepted
 		}
 		return
+	}
+	// the form space (forms.go): histories of whole forms under one shared *Config; first because it is cheap
+	if !r.Expired() {
+		forms := allForms()
+		depth, name := 2, "QF-form-pairs"
+		if r.Thorough() {
+			e.exploreFormsTimed("TF-form-pairs", 2, forms, workers, perSpace, sum)
+			depth, name, forms = 3, "TF-top-level-form-triples", forms[:len(forms)/len(formNests)]
+		}
+		e.exploreFormsTimed(name, depth, forms, workers, perSpace, sum)
 	}
 	for _, s := range specs {
 		if r.Expired() {
@@ -630,6 +648,7 @@ func run(r *core.Run) {
 	}
 	r.Extra("per_space", perSpace)
 	// extras and the literal table
+	tabSet := ownCfgSet(all)
 	ws := workers[0]
 	table := append([]string{}, extras...)
 	for _, l := range literals {
@@ -639,7 +658,7 @@ func run(r *core.Run) {
 	}
 	r.Bound("literal_table", fmt.Sprintf("%d spellings x %d contexts", len(literals), len(literalContexts)))
 	for _, t := range table {
-		fs, st := checkText(t, all, true)
+		fs, st := checkGuarded(t, tabSet, true, true)
 		ws.texts++
 		ws.formats += int64(st.formats)
 		ws.comparisons += int64(st.comparisons)
@@ -703,7 +722,32 @@ func run(r *core.Run) {
 	}
 }
 
+func (e *explorer) exploreFormsTimed(name string, depth int, forms []string, workers []*wstats, perSpace map[string]any, sum func() (int64, int64)) {
+	t0, a0 := sum()
+	start, cpu0 := time.Now(), cpuSeconds()
+	debug.SetGCPercent(800)
+	e.r.Bound("space:"+name, fmt.Sprintf("every sequence of %d forms out of %d (heads %v x layouts %q x nestings %q) x configurations {forms-default, forms-custom-rules, forms-custom-rules-indent4}",
+		depth, len(forms), formHeads, formLayouts, formNests))
+	e.exploreForms(name, depth, forms, workers)
+	t1, a1 := sum()
+	perSpace[name] = map[string]any{"histories": t1 - t0, "accepted": a1 - a0, "wall_s": time.Since(start).Seconds(), "cpu_s": cpuSeconds() - cpu0}
+	fmt.Fprintf(os.Stderr, "c16: %s done: %d histories, %.0fs wall, %.0fs cpu, %d violations so far\n", name, t1-t0, time.Since(start).Seconds(), cpuSeconds()-cpu0, e.r.ViolationCount())
+}
+
 func replay(v core.Violation) (bool, string) {
+	if fc, err := core.CaseOf[formCase](v); err == nil && len(fc.Forms) > 0 {
+		i := strings.Index(v.Class, "/")
+		hit := i >= 0 && replayForms(fc, v.Class[i+1:])
+		var sb strings.Builder
+		fmt.Fprintf(&sb, "forms %q under %s, one shared *Config:\n", fc.Forms, fc.Cfg)
+		shared := formCfg(fc.Cfg)
+		for _, f := range fc.Forms {
+			a, _ := formatter.Format([]byte(f), shared)
+			b, _ := formatter.Format([]byte(f), formCfg(fc.Cfg))
+			fmt.Fprintf(&sb, "  %q\n    shared config: %q\n    fresh config:  %q\n", f, a, b)
+		}
+		return hit, sb.String()
+	}
 	k, err := core.CaseOf[kase](v)
 	if err != nil {
 		return false, err.Error()
@@ -712,7 +756,7 @@ func replay(v core.Violation) (bool, string) {
 	if c, ok := cfgByName(k.Cfg); ok {
 		cfgs = []namedCfg{c}
 	}
-	fs, st := checkText(k.Text, cfgs, k.Real)
+	fs, st := checkGuarded(k.Text, ownCfgSet(cfgs), k.Real, true)
 	var sb strings.Builder
 	fmt.Fprintf(&sb, "text: %q\nstrict reader accepts: %v\n", k.Text, st.accepted)
 	for _, c := range cfgs {
